@@ -584,7 +584,7 @@ where
                 let _: ArrayString<[u8; 0]> = str!("extra_info");
             }
             if version == ServerInfoVersion::V664 {
-                if j > MAX_CLIENTS_6_64 {
+                if j >= MAX_CLIENTS_6_64 {
                     continue;
                 } else {
                     result.received |= 1 << j;
